@@ -3,16 +3,28 @@ import Hannibal.Generated.SpawnWiring
 /- C18 for the spawn wiring extracted from today's source (re-checked on every run). -/
 namespace Hannibal
 
+def Runtime.all : List Runtime := [.tokio, .asyncStd, .smol]
+
 def wellWired18b (w : SpawnWiring) : Bool :=
-  w.handleDropDetaches && SpawnEntry.all.all (fun e => w.disp e == .kept || w.disp e == .detached)
+  w.lazySharedSlot && w.joinDetachPlain
+    && SpawnEntry.all.all (fun e => w.disp e == .kept || w.disp e == .detached)
+    && Runtime.all.all (fun r => !w.detachFn r)
+    && Runtime.all.all (fun r => !dropCancels r || w.taskGuarded r)
 
 theorem wellWired18_of_b (w : SpawnWiring) (h : wellWired18b w = true) : WellWired18 w := by
   unfold wellWired18b at h
   simp only [Bool.and_eq_true, List.all_eq_true] at h
-  refine ⟨h.1, ?_⟩
-  intro e
-  have := h.2 e (by cases e <;> simp [SpawnEntry.all])
-  simpa using this
+  obtain ⟨⟨⟨⟨h1, h2⟩, h3⟩, h4⟩, h5⟩ := h
+  refine ⟨h1, h2, ?_, ?_, ?_⟩
+  · intro e
+    have := h3 e (by cases e <;> simp [SpawnEntry.all])
+    simpa using this
+  · intro r
+    have := h4 r (by cases r <;> simp [Runtime.all])
+    simpa using this
+  · intro r hc
+    have := h5 r (by cases r <;> simp [Runtime.all])
+    simpa [hc] using this
 
 theorem wellWired18_current : WellWired18 SpawnWiring.current := wellWired18_of_b _ (by decide)
 
